@@ -64,7 +64,8 @@ pub fn verdict(m: &[u8], ctx: &AppCtx) -> AppVerdict {
     if flags & 0x8000 != 0 {
         return AppVerdict::Silent("C12", "dns-qr-set");
     }
-    if an != 0 || ns != 0 || ar != 0 {
+    let with_records = an != 0 || ns != 0 || ar != 0;
+    if with_records && qd == 0 {
         return AppVerdict::Unspecified("dns-query-with-records".into());
     }
     if qd == 0 {
@@ -90,6 +91,15 @@ pub fn verdict(m: &[u8], ctx: &AppCtx) -> AppVerdict {
         if ty != 1 || cl != 1 {
             all_in_a = false;
         }
+    }
+    if with_records {
+        // counts that promise answer / authority / additional records: when the message ENDS right
+        // behind its questions the records are missing - a truncated message (C14: not answered);
+        // when bytes follow, whether they are those records is not for the reference to say
+        if i == m.len() {
+            return AppVerdict::Silent("C14", "dns-truncated-records");
+        }
+        return AppVerdict::Unspecified("dns-query-with-records".into());
     }
     if !all_in_a {
         return AppVerdict::Silent("C14", "dns-question-not-in-a");
